@@ -59,6 +59,9 @@ type Res struct {
 	// Nil: a plain (not flattened) group result of type VS whose value is the nil slice: a member like any
 	// other, which carries no token (the group then holds one more zero element).
 	Nil bool `json:"nil,omitempty"`
+	// Twin: a plain group result of pointer type that returns the very same pointer as the result before it (same
+	// key): the group still gets two members.
+	Twin bool `json:"twin,omitempty"`
 }
 
 func (r Res) String() string {
@@ -74,6 +77,9 @@ func (r Res) String() string {
 	}
 	if r.Nil {
 		s += "(nil)"
+	}
+	if r.Twin {
+		s += "(same pointer)"
 	}
 	return s
 }
